@@ -141,7 +141,7 @@ def declare(reg):
                  trusted=True, yields=True, note="A-MH: mailbox.MH.remove deletes exactly that message file (asimap.mh.MH.aremove wraps it in a thread)")
     reg.contract(P, "Mailbox._dispatch_or_pend_notifications",
                  params={"self": "ref:Mailbox", "notifications": "StrOrList", "dont_notify": "opt[ref:Authenticated]"},
-                 modifies=["*.pending_notifications"], trusted=True, yields=True,
+                 modifies=["*.pending_notifications", "ClientProxy.g_out"], trusted=True, yields=True,
                  note="assumed here (pushes or queues, touches only clients' pending_notifications); proved separately under C01")
     reg.contract(P, "Mailbox.commit_to_db", params={"self": "ref:Mailbox"}, trusted=True, yields=True,
                  note="assumed: writes the mailbox row to sqlite, changes no Mailbox field (C12 states its contract)")
@@ -198,7 +198,7 @@ def declare(reg):
             "disk-seqs": f"implies(exists(lambda k: {D}), forall(lambda s, k: mem(self.mailbox.g_seqs, s, k) == mem(self.sequences, s, k), 'str', 'int'))",
         },
         modifies=["self.msg_keys", "self.uids", "self.num_msgs", "self.num_recent", "self._msg_key_to_idx", "self._uid_to_idx",
-                  "self.sequences", "self.optional_resync", "*.pending_notifications", "MH.g_keys", "MH.g_seqs"],
+                  "self.sequences", "self.optional_resync", "*.pending_notifications", "ClientProxy.g_out", "MH.g_keys", "MH.g_seqs"],
         loops={
             0: {"invariant": {
                 "picked": "forall(lambda k: (k in to_delete) == (k in self.msg_keys and uid_at(self, k) in some(uid_msg_set) and pos(some(uid_msg_set), uid_at(self, k)) < _i))",
@@ -253,8 +253,8 @@ def declare(reg):
                  ensures={"written": "forall(lambda s, k: mem(self.mailbox.g_seqs, s, k) == mem(seqs, s, k), 'str', 'int')"},
                  modifies=["MH.g_seqs"], **T, note="A-MH: MH.set_sequences rewrites .mh_sequences with exactly the non-empty sequences given")
     reg.contract(P, "Mailbox.get_msg", params={"self": "ref:Mailbox", "msg_key": "int"}, ret="opaque:EmailMessage",
-                 ensures={"is-msg": "result == msg_of(self, msg_key)"}, raises={"KeyError": None, "FileNotFoundError": None},
-                 **T, note="A-EMAIL/A-MH: parses the stored file; KeyError/FileNotFoundError when the file is gone")
+                 ensures={"is-msg": "result == msg_of(self, msg_key)"}, raises={"KeyError": "may:msg_key not in self.mailbox.g_keys", "FileNotFoundError": "may:msg_key not in self.mailbox.g_keys"},
+                 **T, note="A-EMAIL/A-MH: parses the stored file; KeyError/FileNotFoundError only when the file is gone")
     reg.contract(P, "Mailbox._generate_fetch_msg_for", params={"self": "ref:Mailbox", "msg_key": "int", "publish_uid": "bool"},
                  ret="tuple[str,str]", **T, note="assumed here (pure string builder; C07 states its grammar)")
     reg.contract(P, "Mailbox.check_set_haschildren_attr", params={"self": "ref:Mailbox"}, modifies=["self.attributes"], **T, note="assumed: only attributes")
@@ -297,7 +297,7 @@ def declare(reg):
         },
         keeps_invariant=True,
         modifies=["self.last_resync", "self.mtime", "self.optional_resync", "self.msg_keys", "self.uids", "self.num_msgs", "self.num_recent",
-                  "self.sequences", "self.next_uid", "self._msg_key_to_idx", "self._uid_to_idx", "self.attributes", "MH.g_seqs", "*.pending_notifications"],
+                  "self.sequences", "self.next_uid", "self._msg_key_to_idx", "self._uid_to_idx", "self.attributes", "MH.g_seqs", "*.pending_notifications", "ClientProxy.g_out"],
         loops={
             0: {"invariant": {
                 "flags": f"forall(lambda s, k: mem(self.sequences, s, k) == ite(k in new_msg_keys and pos(new_msg_keys, k) < _i, {NF}, mem(lpre(self.sequences), s, k)), 'str', 'int')",
